@@ -63,11 +63,11 @@ def kindOf : Instr → Kind
   | .noop _ => .simple 0 0
   | .invoke n => .simple (n.toNat + 1) 1
   | .itemGet => .simple 2 1
-  | .itemSet => .simple 3 0
+  | .itemSet => .simple 3 1
   | .attrGet _ => .simple 1 1
-  | .attrSet _ => .simple 2 0
+  | .attrSet _ => .simple 2 1
   | .sliceGet => .simple 4 1
-  | .sliceSet => .simple 5 0
+  | .sliceSet => .simple 5 1
   | .bin _ => .simple 2 1
   | .logicAnd => .simple 2 1
   | .neg | .pos => .simple 1 1
